@@ -1,6 +1,6 @@
 (* C09 -- property theorems only.  Proofs live in C09/Proofs*.v. *)
 From Coq Require Import NArith List.
-From DV Require Import Base.Outcome C09.Gen C09.Model C09.Proofs C09.ProofsZone C09.ProofsTrace C09.ProofsVersions C09.ProofsEffect.
+From DV Require Import Base.Outcome C09.Gen C09.Model C09.Proofs C09.ProofsZone C09.ProofsTrace C09.ProofsVersions C09.ProofsEffect C09.ProofsValues.
 Import ListNotations.
 Local Open Scope N_scope.
 
@@ -46,6 +46,19 @@ Theorem C09_cell_remove_value : forall {T} (d : list (entry T)) w r,
   v_get (v_remove d w) r = None.
 Proof. exact @cell_remove_value. Qed.
 Print Assumptions C09_cell_remove_value.
+
+Theorem C09_update_then_remove_same_version : forall {T} (d : list (entry T)) w x,
+  v_remove (v_update d w x) w = match v_rollback d w with [] => [] | b => (w, None) :: b end.
+Proof. exact @update_then_remove_same_version. Qed.
+Print Assumptions C09_update_then_remove_same_version.
+
+Theorem C09_update_then_remove_reads : forall {T} (b : list (entry T)) w x r,
+  nov w b ->
+  v_rollback (v_remove (v_update b w x) w) w = b /\
+  (ver_le w r = false -> v_get (v_remove (v_update b w x) w) r = v_get b r) /\
+  (ver_le w r = true -> v_get (v_remove (v_update b w x) w) r = None).
+Proof. exact @update_then_remove_reads. Qed.
+Print Assumptions C09_update_then_remove_reads.
 
 (* ---- zone level: traces of API calls (run = fold of step over the events) over
    the whole node tree (names are label paths; zone cuts, CNAMEs, wildcards, ANY).
@@ -120,7 +133,7 @@ Theorem C09_stale_handle_refuted :
   stale_handle_rejected = false ->
   exists s evs r name t,
     zinv s /\ r <= z_cur s /\ z_cur s + ncommits evs + 2 < LIM /\ no_stale evs = false /\
-    query s r name t = AData 21 /\ query (run s evs) r name t = AData 22.
+    query s r name t = AData (r1 21) /\ query (run s evs) r name t = AData (r1 22).
 Proof. exact stale_handle_refuted. Qed.
 Print Assumptions C09_stale_handle_refuted.
 
@@ -128,7 +141,7 @@ Theorem C09_stale_handle_after_drop_refuted :
   stale_handle_rejected = false ->
   exists s evs name t,
     zinv s /\ z_writer s = None /\ no_stale evs = false /\
-    query s 1 name t = ANoData (Some 1) /\ query (run s evs) 1 name t = AData 31.
+    query s 1 name t = ANoData (Some (3600, 1)) /\ query (run s evs) 1 name t = AData (r1 31).
 Proof. exact stale_handle_after_drop_refuted. Qed.
 Print Assumptions C09_stale_handle_after_drop_refuted.
 
@@ -136,7 +149,7 @@ Print Assumptions C09_stale_handle_after_drop_refuted.
    cell_of s name t is the stored Versioned RRset of (name, type) ---- *)
 
 Theorem C09_update_effect : forall c w s name t rr r,
-  c < w -> z_q c w s -> rr <> 0 -> ver_le w r = true ->
+  c < w -> z_q c w s -> rrv_is_empty rr = false -> ver_le w r = true ->
   v_get (cell_of (data_op s w (EUpdate name t rr)) name t) r = Some rr.
 Proof. exact update_effect. Qed.
 Print Assumptions C09_update_effect.
@@ -168,3 +181,51 @@ Theorem C09_clean_result : forall z,
   end.
 Proof. exact clean_result. Qed.
 Print Assumptions C09_clean_result.
+
+(* ---- nodes that exist only in other versions; no trace of an aborted version; the lock across commit ---- *)
+
+Theorem C09_nonexistent_node_is_absent : forall ns l v t soa,
+  child_at ns l v = None ->
+  forall p, q_children ns p v t soa = q_children (filter (fun q => negb (fst q =? l)) ns) p v t soa.
+Proof. exact nonexistent_node_is_absent. Qed.
+Print Assumptions C09_nonexistent_node_is_absent.
+
+Theorem C09_nonexistent_node_not_walked : forall v n,
+  n_exists n v = false -> forall path, walk_node path n v = [].
+Proof. exact not_exists_walk. Qed.
+Print Assumptions C09_nonexistent_node_not_walked.
+
+Theorem C09_no_marker_above_current : forall is evs,
+  ncommits evs + 2 < LIM -> stale_free evs ->
+  let s := run (build is) evs in
+  match z_writer s with
+  | None => Forall (fun v => v <= z_cur s) (z_versions s)
+  | Some wr => Forall (fun v => v <= z_cur s + 1) (z_versions s) /\ w_new wr = z_cur s + 1
+  end.
+Proof. exact no_marker_above_current. Qed.
+Print Assumptions C09_no_marker_above_current.
+
+Theorem C09_lock_held_across_commit : forall s wr,
+  zinv s -> z_cur s + 2 < LIM -> z_writer s = Some wr ->
+  let s' := step s ECommit in
+  exists wr', z_writer s' = Some wr' /\ z_cur s' = z_cur s + 1 /\ w_new wr' = z_cur s' + 1 /\
+    step s' EWAcquire = s' /\
+    (forall rd tl, exists rest, trace s' rd (EWAcquire :: tl) = OPending :: rest) /\
+    z_writer (step s' EWOpen) = Some (mkw (w_new wr') true true).
+Proof. exact lock_held_across_commit. Qed.
+Print Assumptions C09_lock_held_across_commit.
+
+(* ---- no torn RRset: an RRset is a TTL and a record list; whatever is stored, answered
+   or walked is, as a whole, an RRset that was written (or an SOA commit(true) derived) ---- *)
+
+Theorem C09_stored_rrsets_were_written : forall (Q : rrv -> Prop) is evs,
+  bump_closed Q -> Forall (init_vals Q) is -> Forall (ev_vals Q) evs -> z_vals Q (run (build is) evs).
+Proof. exact stored_rrsets_were_written. Qed.
+Print Assumptions C09_stored_rrsets_were_written.
+
+Theorem C09_no_torn_rrset : forall (Q : rrv -> Prop) is evs v name t,
+  bump_closed Q -> Forall (init_vals Q) is -> Forall (ev_vals Q) evs ->
+  answer_vals Q (query (run (build is) evs) v name t) /\
+  Forall (fun it => Q (snd it)) (walk (run (build is) evs) v).
+Proof. exact no_torn_rrset. Qed.
+Print Assumptions C09_no_torn_rrset.
